@@ -234,7 +234,7 @@ func (r *aggregatorRole) ProcessTemplates(workflowRepo repos.IRepo, loadSubworkf
 	r.Roles = enabledRoles
 
 	// If there are no roles in the aggregator role, it has no use and should be disabled
-	if len(r.Roles) == 0 {
+	if len(r.GetRoles()) == 0 { // iterators that generated nothing do not count
 		r.Enabled = "false"
 	}
 
